@@ -174,7 +174,14 @@ fn run_program(
         if nf > max_funcs {
             break;
         }
-        let nvec = if cols.is_empty() { 1 } else { vectors };
+        // functions of one or two arguments get every boundary value of their widest column at least once
+        let nvec = if cols.is_empty() {
+            1
+        } else if cols.len() <= 2 {
+            vectors.max(cols.iter().map(|c| c.len()).max().unwrap_or(0).min(14))
+        } else {
+            vectors
+        };
         let req = initial_required_gas(b, func).unwrap_or(0);
         let ample = req + ample_gas;
         for j in 0..nvec {
